@@ -15,6 +15,7 @@ from ..redcase import (
     gen_reduce_case,
     gen_scan_case,
     nblocks_reduced,
+    plain_kwargs,
     shrink_reduce,
     simplify_knobs,
 )
@@ -67,7 +68,7 @@ def gen(tape: Tape, tier: str) -> dict:
 def run(case, tape: Tape, ctx):
     knobs = dict(case["knobs"])
     nb = nblocks_reduced(case)
-    kw = case["kwargs"]
+    kw = plain_kwargs(case)
     func = kw["func"]
     try:
         colls, assemble, _ = call_chunked(case)
